@@ -48,6 +48,13 @@ pub fn run(ctx: &Ctx) -> Report {
                 }
             }
             let mut names: Vec<String> = (0..6).map(|_| gen_name(&mut rng)).collect();
+            // near misses of one of the names (other case, padding, characters with equal low bytes, ...)
+            let base = if rng.chance(1, 2) { names[rng.usize_below(names.len())].clone() } else { rng.pick(&["Aukasz", "owner", "é", "名前", "a"]).to_string() };
+            if !base.is_empty() {
+                names.push(base.clone());
+                names.extend(crate::engines::e6_codec::name_variants(&base));
+                rep.bump("c18/name_cases_with_near_miss_names");
+            }
             // names that are themselves valid addresses of this codec (an address made from a name, a humanized byte string)
             {
                 use cosmwasm_std::Api;
